@@ -108,6 +108,8 @@ def run(ctx):
     fixed += [("x([^b]|b+[^by])*b+y", list("abxy"), ["xbaby", "xbbaby", "xabby", "xbabaaby", "xbay", "xbab"]),
               (r"/\*([^*]|\*+[^*/])*\*+/", list("/*a "), ["/**a*/", "/* a*a */", "/*a**/", "/**/", "/*a*/a", "/**a/"]),
               ("(ab|ba)*c", list("abc"), ["ababc", "abbac", "abab", "baabc"])]
+    fixed += [("a[^ab]|b", list("ab")), ("a[^ab]|b", list("abc")), ("b|a[^ab]", list("abc")), ("b|a[^ab]", list("ab")),
+              ("x[^ab]", list("abx")), ("a.c", list("ac\n")), ("b[^a]|bb", list("ab")), ("x[^ab]y", list("abxy")), ("[^a]a|aa", list("a"))]
     for fx in fixed:
         pat, cs = fx[0], fx[1]
         strs = ["".join(x) for L in range(0, 4) for x in itertools.product(cs, repeat=L)][:150] + (list(fx[2]) if len(fx) > 2 else [])
